@@ -217,6 +217,7 @@ fn run_boot(h: &HCtx, ops: &[String], start: usize, restarted: bool, lines: &Ref
             }
             let fab1 = NonZeroU8::new(1).unwrap();
             let faults_before = h.kv.0.borrow().failed_calls;
+            let t_op = crate::simnet::now_ms();
             let status: String = match w[0] {
                 "boot" => {
                     let r = device.open_basic_comm_window(900, &crypto, &());
@@ -254,6 +255,20 @@ fn run_boot(h: &HCtx, ops: &[String], start: usize, restarted: bool, lines: &Ref
                     match want {
                         Err(e) => e.to_string(),
                         Ok((m, peer)) => {
+                            // the controller keeps one session per device session ever made: forget
+                            // those whose device side is gone, so that its table does not fill up
+                            let live: Vec<u16> = device.with_state(|state| {
+                                let p = state.verif_parts();
+                                let x = p.sessions.iter().map(|s| s.get_local_sess_id()).collect();
+                                x
+                            });
+                            controller.with_state(|state| {
+                                let p = state.verif_parts();
+                                let dead: Vec<u32> = p.sessions.iter().filter(|s| !live.contains(&s.get_peer_sess_id())).map(|s| s.id()).collect();
+                                for id in dead {
+                                    p.sessions.remove(id);
+                                }
+                            });
                             let r: Result<u32, Error> = (|| {
                                 let dev_local = next_local_sess;
                                 let ctl_local = next_local_sess + 1000;
@@ -440,7 +455,17 @@ fn run_boot(h: &HCtx, ops: &[String], start: usize, restarted: bool, lines: &Ref
                 }
             };
             let status = if status == "rej" && h.kv.0.borrow().failed_calls != faults_before { "NoSpace".to_string() } else { status };
-            lines.borrow_mut().push((op, format!("{} | {}", status, dump())));
+            let slow = w[0] != "tick" && crate::simnet::now_ms() - t_op > 900;
+            if !slow {
+                lines.borrow_mut().push((op, format!("{} | {}", status, dump())));
+            }
+            if slow {
+                // an exchange that ran into retransmissions / time-outs cost virtual seconds the
+                // model does not know about: the fail-safe and window deadlines of the rest of the
+                // history would no longer be comparable - the case ends here
+                lines.borrow_mut().push(("#".into(), "stat h_truncated_after_slow_op 1".into()));
+                return;
+            }
         }
     };
 
@@ -566,7 +591,7 @@ pub fn run_case_h(out: &mut Out, cas: &Rc<Vec<Ca>>, case: &Case) {
     }
     for (op, res) in lines.into_inner() {
         if op == "#" {
-            out.buf.push_str(&format!("# {}\n", res));
+            out.buf.push_str(&format!("#{}{}\n", if res.starts_with("stat ") { "" } else { " " }, res));
         } else {
             out.op(&op, &res);
         }
